@@ -151,7 +151,14 @@ def gen_cases(rng, tier):
     if cls == 'CDevice2' and cbk in ('none', 'overlap'):
       cbk = pick(rng, ['pair', 'single', 'multi'])
     n = 24 if (i % 53 == 52) else None
-    L = lg.gen_leaf(rng, cls=cls, n=n, cbounds=cbk)
+    if cls == 'SDevice':
+      # rate clipping x the sign of the bounds is cycled, not drawn: the clip limits are products of the clip factor, the slot's OWN
+      # bound (of either sign) and the state of charge
+      k = i // len(CLASSES)
+      L = lg.gen_leaf(rng, cls=cls, n=n, cbounds=cbk, sign=['two', 'pos', 'neg'][k % 3])
+      L['rate_clip'] = [(F(3, 2), F(2)), None, (F(2), None), (None, F(3, 2)), (F(1), F(1))][k % 5]
+    else:
+      L = lg.gen_leaf(rng, cls=cls, n=n, cbounds=cbk)
     out.append({'leaf': L, 'points': gen_points(rng, L, budget)})
   return out
 
